@@ -99,6 +99,9 @@ request_module(InterrogateModuleDef *def) {
  */
 bool InterrogateDatabase::
 get_error_flag() {
+  // Databases are loaded lazily; bring in any pending requests first, so that
+  // a file that cannot be loaded is reported no matter which query comes first.
+  check_latest();
   return _error_flag;
 }
 
